@@ -248,6 +248,97 @@ pub fn random_operands(ctx: &mut Ctx, per_shard: usize, judge: &mut dyn FnMut(&m
     ctx.rng = rng;
 }
 
+/// String-valued operands generated per function family rather than drawn from a pool: small-alphabet
+/// haystack/needle pairs, every whitespace / control character around a word, every low character through the
+/// case mappings, numeric-looking and date-looking strings with signs, padding and out-of-range fields.
+pub fn string_families(ctx: &mut Ctx, judge: &mut dyn FnMut(&mut Ctx, Case)) {
+    ctx.align();
+    let none = Value::None;
+    let s = |x: &str| Expr::value(x.to_string());
+    // (i) contains: all pairs of strings over {a, b} up to length 5, and over {Σ, Α} up to length 3
+    let mut words: Vec<String> = vec![String::new()];
+    let mut frontier = vec![String::new()];
+    for _ in 0..5 {
+        let mut next = vec![];
+        for w in &frontier {
+            for c in ['a', 'b'] {
+                next.push(format!("{w}{c}"));
+            }
+        }
+        words.extend(next.iter().cloned());
+        frontier = next;
+    }
+    for a in ["Σ", "Α", "ΣΣ", "ΣΑ", "ΑΣ", "ΣΣΑ", "ΣΑΣ", "ΑΣΣ", "1001", "10010012", "10012", "0012"] {
+        words.push(a.to_string());
+    }
+    for h in &words {
+        for n in &words {
+            if !ctx.mine() {
+                continue;
+            }
+            let e = Expr::contains(s(h), s(n));
+            judge(ctx, Case { expr: &e, facts: &none, cell: "contains(String,String)".into(), family: "strings-small-alphabet-contains" });
+        }
+    }
+    // (ii) trim / uppercase / lowercase: every character below U+0250 plus Unicode spaces and special-casing characters, in four positions
+    let mut chars: Vec<char> = (0u32..0x250).filter_map(char::from_u32).collect();
+    chars.extend("\u{1680}\u{2000}\u{2001}\u{2002}\u{2003}\u{2004}\u{2005}\u{2006}\u{2007}\u{2008}\u{2009}\u{200a}\u{200b}\u{2028}\u{2029}\u{202f}\u{205f}\u{3000}\u{feff}ΣσςΐΰͅἈᾈᾳῼﬁﬂﬃǅǈǋǲİıſẞ".chars());
+    for c in chars {
+        if !ctx.mine() {
+            continue;
+        }
+        for text in [format!("{c}"), format!("{c}a b{c}"), format!("x{c}"), format!("{c}x"), format!("a{c}b {c}"), format!("xΣ{c}"), format!("{c}Σ")] {
+            for f in [Expr::trim as fn(Expr) -> Expr, Expr::uppercase, Expr::lowercase] {
+                let e = f(s(&text));
+                judge(ctx, Case { expr: &e, facts: &none, cell: String::new(), family: "strings-every-low-character" });
+            }
+        }
+    }
+    // (iii) numeric-looking strings through int / float / dec
+    let mut rng = ctx.rng.clone();
+    let n = ctx.tier.of(3_000, 60_000);
+    for _ in 0..n {
+        let sign = *rng.pick(&["", "", "+", "-", "++", " -", "- "]);
+        let zeros = "0".repeat(match rng.below(4) { 0 => 0, 1 => rng.below(4), 2 => 30 + rng.below(30), _ => rng.below(80) });
+        let digits: String = (0..rng.below(45)).map(|_| char::from(b'0' + rng.below(10) as u8)).collect();
+        let frac = match rng.below(4) { 0 => String::new(), 1 => ".".to_string(), _ => format!(".{}", (0..rng.below(35)).map(|_| char::from(b'0' + rng.below(10) as u8)).collect::<String>()) };
+        let exp = match rng.below(5) { 0 => format!("e{}", rng.range(-400, 400)), 1 => format!("E+{}", rng.below(30)), 2 => format!("e{}", "0".repeat(rng.below(6))), _ => String::new() };
+        let pad = *rng.pick(&["", "", "", " ", "\t", "\u{a0}", "_", "\n"]);
+        let text = format!("{pad}{sign}{zeros}{digits}{frac}{exp}{pad}");
+        for f in [Expr::int as fn(Expr) -> Expr, Expr::float, Expr::dec] {
+            let e = f(s(&text));
+            judge(ctx, Case { expr: &e, facts: &none, cell: String::new(), family: "strings-numeric-looking" });
+        }
+    }
+    // (iv) date-looking strings through datetime: a valid RFC 3339 skeleton with one or two fields disturbed
+    for _ in 0..n {
+        let mut fields: Vec<String> = vec![format!("{:04}", rng.below(10_000)), format!("{:02}", 1 + rng.below(12)), format!("{:02}", 1 + rng.below(28)), format!("{:02}", rng.below(24)), format!("{:02}", rng.below(60)), format!("{:02}", rng.below(60))];
+        for _ in 0..rng.below(3) {
+            let i = rng.below(6);
+            fields[i] = match rng.below(9) {
+                0 => format!("+{}", &fields[i][1..]),
+                1 => format!("-{}", &fields[i][1..]),
+                2 => format!(" {}", &fields[i][1..]),
+                3 => "00".into(),
+                4 => "99".into(),
+                5 => format!("{}0", fields[i]),
+                6 => fields[i][1..].to_string(),
+                7 => "60".into(),
+                _ => "29".into(),
+            };
+        }
+        let frac = match rng.below(4) { 0 => format!(".{}", rng.below(1_000_000_000)), 1 => ".".into(), _ => String::new() };
+        let tz = *rng.pick(&["Z", "z", "+00:00", "-00:00", "+02:00", "+0200", "+24:00", "", " UTC", "+02"]);
+        let sep = *rng.pick(&["T", "T", "t", " ", "_"]);
+        let text = format!("{}-{}-{}{sep}{}:{}:{}{frac}{tz}", fields[0], fields[1], fields[2], fields[3], fields[4], fields[5]);
+        let e = Expr::datetime(s(&text));
+        judge(ctx, Case { expr: &e, facts: &none, cell: String::new(), family: "strings-date-looking" });
+        let e = Expr::year(Expr::datetime(s(&text)));
+        judge(ctx, Case { expr: &e, facts: &none, cell: String::new(), family: "strings-date-looking" });
+    }
+    ctx.rng = rng;
+}
+
 pub fn the_pool() -> Pool {
     pool()
 }
